@@ -199,6 +199,15 @@ def main(argv=None):
         if args.replay:
             rc = mod.replay(ctx, json.load(open(args.replay)))
             return rc
+        # replay files of earlier runs of this property (possibly against a changed tree) are stale: start clean
+        rd = os.path.join(common.VERIF, "evidence", "replay")
+        if os.path.isdir(rd):
+            for fn in os.listdir(rd):
+                if fn.startswith(prop + "-") and fn.endswith(".json"):
+                    try:
+                        os.remove(os.path.join(rd, fn))
+                    except OSError:
+                        pass
         findings = load_findings()
         open_findings = {f["id"]: f for f in findings.get("findings", [])
                          if f["property"] == prop and f.get("status", "open") == "open"}
